@@ -72,7 +72,8 @@ def run(chk):
     bumps = [j for j, v in enumerate(vars_) if v['col'] == 'counter' and rng.random() < 0.7] if kind != 'custom_vjp' else []
     cases.append({'kind': kind, 'vars': vars_, 'nin': nin, 'poly': gen_poly(rng, nv + nin), 'bumps': bumps, 'xs': [rng.randint(-3, 3) for _ in range(nin)], 'ct': rng.randint(-3, 4),
                   'tvars': tangents(rng, vars_), 'tins': [rng.randint(-2, 3) for _ in range(nin)],
-                  'filter': gen_filter(rng), 'has_aux': kind in ('vjp', 'grad', 'value_and_grad') and rng.random() < 0.3})
+                  'filter': gen_filter(rng), 'has_aux': kind in ('vjp', 'grad', 'value_and_grad') and rng.random() < 0.3,
+                  'seq': [rng.choice(['direct', 'diff']) for _ in range(rng.randint(2, 4))]})
   W = 12
   results = common.run_impl_parallel('impl_c07.py', [{'cases': cases[i::W]} for i in range(W)], workers=W, timeout=3000)
   obs = [None] * len(cases)
@@ -96,6 +97,17 @@ def run(chk):
       chk.violation('oracle', 'nn.%s differs from jax autodiff of the pure function (variables, inputs) -> module.apply: primal, cotangents / tangents of the selected collections and of the '
                     'inputs, aux, or the forward-pass updates (published once)' % d['kind'], {'case': d, 'impl': impl['ok'], 'reference': ref['ok']})
       continue
+    hi, hr = r.get('hist_impl'), r.get('hist_ref')
+    if hi is not None:
+      stat['histories'] = stat.get('histories', 0) + 1
+      if 'err' in hi or 'err' in hr:
+        chk.violation('oracle', 'a history of direct and nn.%s calls on a sub-module bound in setup (or its pure reference) raised' % d['kind'], {'case': d, 'impl': hi, 'reference': hr})
+        continue
+      if hi['ok'] != hr['ok']:
+        chk.violation('oracle', 'a history %s of direct calls and nn.%s calls on one sub-module bound in setup differs from the same sequence of pure Module.apply calls threading the '
+                      'variables: primal outputs, or the forward-pass updates are not published exactly once per call' % (d['seq'], d['kind']),
+                      {'case': d, 'impl': hi['ok'], 'reference': hr['ok']})
+        continue
     a = impl['ok']
     D = cdfun(d)
     f = LP.cfilt(d['filter'])
@@ -117,12 +129,27 @@ def run(chk):
       if 'err' in t:
         chk.violation('oracle', 'differentiating through nn.custom_vjp raised %s' % t['err'], {'case': d, 'msg': t.get('msg')})
         continue
+      tr = r['through_ref']
+      if 'err' in tr or tr['ok'] != t['ok']:
+        chk.violation('oracle', 'differentiating through nn.custom_vjp does not use the user\'s backward rule on the true cotangents (x3 for the grad_vars collections, x2 for the inputs)',
+                      {'case': d, 'got': t['ok'], 'expected': tr})
+        continue
       # forward value = the original function; the user's backward rule (x3 / x2) is used when differentiating
       row = ('(let \'(y, vg, ig) := vjp_model %s %s 1 in Z.eqb y %s && list_beq (pair_beq Nat.eqb Z.eqb) (map (fun ig0 => (fst ig0, 3 * snd ig0)) vg) %s && '
              'list_beq Z.eqb (map (Z.mul 2) ig) %s)' % (f, D, cZ(int(a['y'])), clist([cpair(cnat(i), cZ(int(g))) for i, g in t['ok']['vg']]), clist([cZ(int(g)) for g in t['ok']['ig']])))
+    if hi is not None:
+      row = '(%s && (let \'(ys, vs) := hist %s %s in list_beq Z.eqb vs %s && ys_match ys %s))' % (
+          row, cnat(len(d['seq'])), D, clist([cZ(int(z)) for z in hi['ok']['vars_after']]), clist([copt(cZ(int(y)) if y is not None else None) for y in hi['ok']['ys']]))
     rows.append((d, o, row))
   chk.sample({'case': cases[0], 'observed': obs[0].get('ok', {}).get('impl')})
-  hdr = HEADER + 'Definition chk (b : bool) : bool := b.\n'
+  hdr = HEADER + '''Definition chk (b : bool) : bool := b.
+Fixpoint ys_match (ys : list Z) (es : list (option Z)) : bool :=
+  match ys, es with
+  | [], [] => true
+  | y :: ys', e :: es' => (match e with Some z => Z.eqb y z | None => true end) && ys_match ys' es'
+  | _, _ => false
+  end.
+'''
   bad = common.coq_mismatches('c07', hdr, [r[2] for r in rows], 'chk', shard=60, timeout=900)
   for i in bad[:8]:
     d, o, _ = rows[i]
@@ -131,7 +158,7 @@ def run(chk):
   chk.notes['stats'] = stat
   chk.cov['rule'] = ('polynomial modules with 1-5 scalar variables in params / batch_stats / cache / counter and 1-3 scalar inputs, random polynomials of depth <= 4, forward-pass counters; '
                      'nn.vjp (vjp_variables in {name, list, True, False, DenyList}, has_aux, integer cotangent), nn.jvp (variable_tangents for random subsets, input tangents), nn.grad, '
-                     'nn.value_and_grad (has_aux), nn.custom_vjp (forward value; backward rule observed by differentiating through it). non-trivial = more than one variable and a proper filter')
+                     'nn.value_and_grad (has_aux), nn.custom_vjp (forward value; backward rule observed by differentiating through it); every case also as a history of 2-4 direct / differentiated calls on one sub-module bound in setup (model: hist). non-trivial = more than one variable and a proper filter')
   chk.cov['trusted_base'] = ['Coq 8.16.1 kernel + vm_compute', 'harness/c07.py, impl_c07.py', 'harness/jaxcompat.py', 'jax.vjp, jax.jvp, jax.grad']
 
 
